@@ -40,6 +40,16 @@ MANIFEST = dict(
     technique="Coq theorems over Gallina models of _print_widget / Prompt / WindowContainer + differential correspondence run against /repo")
 
 
+_SEEN = {}
+
+
+def _viol(chk, key, what, replay, found=True):
+    """at most two reports per kind of failure, so that one kind cannot crowd out the others"""
+    _SEEN[key] = _SEEN.get(key, 0) + 1
+    if _SEEN[key] <= 2:
+        chk.violation(key, what, replay, found=found)
+
+
 # ------------------------------------------------------------------ (a) paging
 class _Recorder(io.TextIOBase):
     """stdout replacement: text written between two ASKs is one segment."""
@@ -175,6 +185,7 @@ def check_paging(chk, tier):
     for H, n in [(4, 9), (5, 5), (30, 100), (30, 27), (30, 28), (30, 29), (100, 250), (7, 40)]:
         cases.append(([("" if i % 3 == 0 else "x" * (i % 5)) for i in range(n)], H))
     model = model_paging(cases)
+    bad_prompt_reported = False
     for (lines, H), m in zip(cases, model):
         status, evs, prompts = impl_paging_lines(lines, H, max_asks=len(lines) + 5)
         chk.count()
@@ -187,17 +198,18 @@ def check_paging(chk, tier):
         if n in (H - 3, H - 2, H - 1) or n in (2 * (H - 2), 2 * (H - 2) + 1):
             chk.hist("paging:boundary")
         if status != "done" or evs is None:
-            chk.violation("paging-abnormal", "C12_paging_terminates/C12_paging_pages: _print_widget(%d lines, height %d) ended with %s" % (n, H, status),
+            _viol(chk, "paging-abnormal", "C12_paging_terminates/C12_paging_pages: _print_widget(%d lines, height %d) ended with %s" % (n, H, status),
                           dict(case, impl=[status, evs], model=m), found=True)
             continue
         d = direct_paging(lines, H, evs)
         if d:
-            chk.violation(d[0], "%s [n=%d H=%d]" % (d[1], n, H), dict(case, impl=evs, model=m), found=True)
+            _viol(chk, d[0], "%s [n=%d H=%d]" % (d[1], n, H), dict(case, impl=evs, model=m), found=True)
         elif evs != m:
-            chk.violation("paging-events", "C12_paging_pages: event sequence of _print_widget(%d lines, height %d) differs from the proved model" % (n, H),
+            _viol(chk, "paging-events", "C12_paging_pages: event sequence of _print_widget(%d lines, height %d) differs from the proved model" % (n, H),
                           dict(case, impl=evs, model=m), found=True)
-        if any(p != PRESS_ENTER for p in prompts):
-            chk.violation("paging-prompt-text", "the paging prompt is %r, not the press-ENTER prompt" % prompts[0],
+        if any(p != PRESS_ENTER for p in prompts) and not bad_prompt_reported:
+            bad_prompt_reported = True
+            _viol(chk, "paging-prompt-text", "the paging prompt is %r, not the press-ENTER prompt" % prompts[0],
                           dict(case, impl=prompts), found=True)
     chk.sample(dict(paging=dict(n=7, H=5, impl=impl_paging_lines(["l%d" % i for i in range(7)], 5)[1])))
     # heights below 3: outside the property; the model (Python integers and slices) must still agree, including
@@ -212,7 +224,7 @@ def check_paging(chk, tier):
         want_status = "runaway" if oof else "done"
         mm = m[:-1] if oof else m
         if status != want_status or evs != mm:
-            chk.violation("paging-low-height-model", "model of _print_widget disagrees with the code at unsupported height %d, %d lines: %s %s vs %s"
+            _viol(chk, "paging-low-height-model", "model of _print_widget disagrees with the code at unsupported height %d, %d lines: %s %s vs %s"
                           % (H, n, status, evs, m), dict(kind="paging-low", lines=lines, H=H, impl=[status, evs], model=m), found=False)
 
 
@@ -269,7 +281,7 @@ def check_e2e(chk, tier):
     except subprocess.TimeoutExpired:
         res, err = None, "timeout"
     if res is None:
-        chk.violation("e2e-abnormal", "C12_paging_terminates: the end-to-end paging run did not finish: %s" % err,
+        _viol(chk, "e2e-abnormal", "C12_paging_terminates: the end-to-end paging run did not finish: %s" % err,
                       dict(kind="e2e", cases=cases), found=False)
         return
     model = model_paging([(["l%d" % i for i in range(n)], H) for n, H in cases])
@@ -282,7 +294,7 @@ def check_e2e(chk, tier):
         if want_consumed >= 1:
             chk.nontriv(case)
         if st != "done" or text != want_text or consumed != want_consumed:
-            chk.violation("e2e-paging", "C12_paging_pages/C12_paging_ask_count end to end: %d lines at height %d wrote %r and consumed %d typed lines; "
+            _viol(chk, "e2e-paging", "C12_paging_pages/C12_paging_ask_count end to end: %d lines at height %d wrote %r and consumed %d typed lines; "
                           "the proved model gives %r and %d" % (n, H, text[-120:], consumed, want_text[-120:], want_consumed),
                           dict(case, impl=[st, text, consumed], model=[want_text, want_consumed]), found=True)
 
@@ -422,13 +434,13 @@ def check_prompt(chk, tier):
         rep = dict(kind="prompt", case=c, impl=s, model=uncps(m[0]))
         if cps(s) != m[0]:
             key = "prompt-str-direct" if not direct_prompt(p, s) else "prompt-str"
-            chk.violation(key, "C12_prompt_str/C12_prompt_format: str(prompt) = %r, the proved model gives %r after %s"
+            _viol(chk, key, "C12_prompt_str/C12_prompt_format: str(prompt) = %r, the proved model gives %r after %s"
                           % (s, uncps(m[0]), c["ops"]), rep, found=True)
             continue
         if not direct_prompt(p, s):
-            chk.violation("prompt-str-direct", "C12_prompt_str: str(prompt) = %r is not message + key-sorted bracketed options" % s, rep, found=True)
+            _viol(chk, "prompt-str-direct", "C12_prompt_str: str(prompt) = %r is not message + key-sorted bracketed options" % s, rep, found=True)
         if [[cps(k), cps(v)] for k, v in p.options.items()] != m[1]:
-            chk.violation("prompt-options", "C12_prompt_refines_map: options %r differ from the model's %r" % (list(p.options.items()), m[1]), rep, found=True)
+            _viol(chk, "prompt-options", "C12_prompt_refines_map: options %r differ from the model's %r" % (list(p.options.items()), m[1]), rep, found=True)
         if e is not None:
             chk.count()
             chk.hist("textprompt:width<30" if e[0] < 30 else "textprompt:width>=30")
@@ -438,14 +450,14 @@ def check_prompt(chk, tier):
                 tp = [1]
             want = m[2][0] if m[2] else None
             if tp != want:
-                chk.violation("text-prompt", "text_prompt of %r at width %d is %r, the model gives %r"
+                _viol(chk, "text-prompt", "text_prompt of %r at width %d is %r, the model gives %r"
                               % (s, e[0], uncps(tp[1]) if tp[0] == 0 else tp, uncps(want[1]) if want and want[0] == 0 else want),
                               dict(kind="textprompt", case=c, width=e[0], impl=tp, model=want), found=True)
             elif tp[0] == 0:
                 # direct: the prompt text is kept up to white space (long words may be broken), ends with one blank, no line wider than the width
                 t = uncps(tp[1])
                 if "".join(t.split()) != "".join(s.split()) or not t.endswith(" ") or any(len(l) > e[0] for l in t[:-1].split("\n")):
-                    chk.violation("text-prompt-direct", "text_prompt of %r at width %d loses text or overflows: %r" % (s, e[0], t),
+                    _viol(chk, "text-prompt-direct", "text_prompt of %r at width %d loses text or overflows: %r" % (s, e[0], t),
                                   dict(kind="textprompt", case=c, width=e[0], impl=tp, model=want), found=True)
     # the default prompt of a screen, literally
     from simpleline.render.screen import UIScreen
@@ -453,7 +465,7 @@ def check_prompt(chk, tier):
     chk.count()
     chk.sample(dict(default_prompt=d))
     if d != "Please make a selection from the above ['c' to continue, 'q' to quit, 'r' to refresh]: " or cps(d) != res[0][0]:
-        chk.violation("default-prompt", "C12_default_prompt: UIScreen().prompt() is %r" % d, dict(kind="default-prompt", impl=d), found=True)
+        _viol(chk, "default-prompt", "C12_default_prompt: UIScreen().prompt() is %r" % d, dict(kind="default-prompt", impl=d), found=True)
 
 
 # ------------------------------------------------------------------ (c) window
@@ -547,10 +559,10 @@ def check_window(chk, tier):
             except Exception as e:  # noqa
                 ok_direct, want = False, "item failed on its own: %s" % type(e).__name__
         if not ok_direct:
-            chk.violation("window-content", "C12_window_titled/C12_window_untitled: the window's lines are not title + blank + the items' own lines at width %d: %r vs %r"
+            _viol(chk, "window-content", "C12_window_titled/C12_window_untitled: the window's lines are not title + blank + the items' own lines at width %d: %r vs %r"
                           % (width, lines, want), dict(case, impl=i, model=m, want=want), found=True)
         elif i != m:
-            chk.violation("window-render", "C12_window_titled: WindowContainer.render differs from the proved model at width %d: %r vs %r"
+            _viol(chk, "window-render", "C12_window_titled: WindowContainer.render differs from the proved model at width %d: %r vs %r"
                           % (width, i, m), dict(case, impl=i, model=m), found=(m[0] in (0, 1)))
     # show_all: the real screen renders its window at the configured width and pages it
     from simpleline import App
@@ -581,7 +593,7 @@ def check_window(chk, tier):
         if asks >= 1:
             chk.nontriv(case)
         if status != "done" or evs != m:
-            chk.violation("show-all", "C12_show_all: show_all of a window at width %d, height %d gives %s %r, the proved model %r"
+            _viol(chk, "show-all", "C12_show_all: show_all of a window at width %d, height %d gives %s %r, the proved model %r"
                           % (width, H, status, evs, m), dict(case, impl=[status, evs], model=m), found=True)
     App.get_configuration().width = 80
     chk.sample(dict(window=cases[0][0], width=cases[0][1], impl=rc.impl_render(build_window(cases[0][0]), cases[0][1])))
